@@ -29,6 +29,7 @@ def norm(res):
     s = json.dumps(res, sort_keys=True, default=repr)
     s = re.sub(r" at 0x[0-9a-f]+", " at 0x", s)
     s = re.sub(r"_0x[0-9a-f]+", "_0x", s)
+    s = re.sub(r"/tmp/tmp[A-Za-z0-9_]+(\.[A-Za-z0-9_.]+)?", "<tmpfile>", s)       # mkstemp names differ per call
     return s
 
 
